@@ -6,7 +6,13 @@ use crate::{Cfg, Pr, Symbol, SymbolAttribute, generate_name};
 /// This is necessary for LR parsing to have a single start production with implicit EOF at the end.
 pub fn augment_grammar(cfg: &Cfg) -> Cfg {
     let start_symbol_production_count = cfg.matching_productions(&cfg.st).len();
-    if start_symbol_production_count == 1 {
+    // The start symbol must not be used on any right-hand side, otherwise it is not isolated
+    let start_symbol_is_used = cfg.pr.iter().any(|p| {
+        p.get_r()
+            .iter()
+            .any(|s| matches!(s, Symbol::N(n, ..) if *n == cfg.st))
+    });
+    if start_symbol_production_count == 1 && !start_symbol_is_used {
         return cfg.clone();
     }
     let mut new_cfg = cfg.clone();
